@@ -464,7 +464,12 @@ namespace {
                     retire_unit = size_t( 40 + 150 * cfg_at( c, 2, 0 ));   // up to several 256-entry blocks
                     max_guards = 60;
                 }
-                session_begin( sched_params( c ));
+                {
+                    // C01-C03 quantify over the interleavings of scan() itself: keep the hazard collection pre-emptible
+                    SchedParams sp = sched_params( c );
+                    sp.scan_atomic = false;
+                    session_begin( sp );
+                }
                 t_index = 0;
                 ThreadState main_ts;
                 world.threads[0] = &main_ts;
